@@ -65,6 +65,9 @@ type State struct {
 	entry   *State // snapshot at function entry (for old())
 	acq     *State // snapshot right after the most recent lock acquisition (for acq())
 	lastRel map[string]*State // per lock: snapshot at its last release
+	watch   map[string]func(*State) []*Term // per held lock: blocks its owner's invariants read (for frame lemmas)
+	loopBase *State           // state at the head of the enclosing loop that acquires locks (baseline for rely)
+	loopBasePending bool
 	path    []int  // block indices visited in the top frame (for naming / debugging)
 	// known facts to dedupe no-panic obligations: term strings known non-nil
 	nonnil map[string]bool
@@ -78,7 +81,7 @@ type State struct {
 }
 
 func (s *State) clone() *State {
-	ns := &State{e: s.e, next: s.next, entry: s.entry, acq: s.acq, ghostOK: s.ghostOK, epoch: s.epoch}
+	ns := &State{e: s.e, next: s.next, entry: s.entry, acq: s.acq, ghostOK: s.ghostOK, epoch: s.epoch, loopBase: s.loopBase}
 	ns.frames = make([]*Frame, len(s.frames))
 	for i, f := range s.frames {
 		ns.frames[i] = f.clone()
@@ -129,6 +132,12 @@ func (s *State) clone() *State {
 		ns.nonnil[k] = v
 	}
 	ns.path = append([]int(nil), s.path...)
+	if s.watch != nil {
+		ns.watch = make(map[string]func(*State) []*Term, len(s.watch))
+		for k, v := range s.watch {
+			ns.watch[k] = v
+		}
+	}
 	if s.lastRel != nil {
 		ns.lastRel = make(map[string]*State, len(s.lastRel))
 		for k, v := range s.lastRel {
@@ -273,6 +282,10 @@ func (s *State) assumeWF(v Value) {
 			}
 		case RBlk:
 			s.assume(Lt(l, s.next))
+			if i+3 < len(lay) && lay[i+2].Role == RLen {
+				// backing arrays of slices are heap blocks (globals and ghost state have negative ids)
+				s.assume(Ge(l, IntLit(0)))
+			}
 		case ROff:
 			s.assume(Ge(l, IntLit(0)))
 			// a nil pointer has offset 0
@@ -353,6 +366,30 @@ func (s *State) storeAt(blk, off *Term, v Value) {
 	if !s.local[blk.String()] {
 		s.dirty()
 	}
+	// frame lemmas: blocks the monitor invariants of held locks read are untouched by a store elsewhere
+	var watched []*Term
+	var before map[Kind]*Term
+	if len(s.watch) > 0 && !s.local[blk.String()] {
+		before = map[Kind]*Term{}
+		for k, m := range s.mem {
+			before[k] = m
+		}
+		for _, w := range s.watch {
+			watched = append(watched, w(s)...)
+		}
+	}
+	defer func() {
+		for _, x := range watched {
+			if x.String() == blk.String() {
+				continue
+			}
+			for k, m0 := range before {
+				if m1 := s.mem[k]; m1 != m0 {
+					s.assume(Implies(Neq(blk, x), mk("=", SBool, Select(m1, x), Select(m0, x))))
+				}
+			}
+		}
+	}()
 	lay := s.e.lay.Of(v.T)
 	if len(lay) != len(v.L) {
 		panic(fmt.Sprintf("storeAt: layout/value mismatch for %v: %d vs %d", v.T, len(lay), len(v.L)))
